@@ -127,8 +127,6 @@ NOT_APPLICABLE = []
 # their engines were planned (DESIGN.md 4) and not built in the time available. Listed in MANIFEST.not_applicable
 # because that is where the schema puts "properties you do not claim, each with a one-line reason".
 UNCLAIMED = {
-    "C13": "not claimed: the engine (seeded scheduler over the real flock/unlink calls of fs/os_unix.go) is not built; the technique applies (DESIGN.md 4/C13, 11)",
-    "C18": "not claimed: the golden image corpus written by the pinned build is not built; the decoder invariant half runs inside C01-C06 but is not a check of C18 (DESIGN.md 4/C18, 11)",
 }
 
 PROPS["C08"] = dict(
@@ -279,3 +277,38 @@ PROPS["C14"] = dict(
 TEXT["C14"] = _t("sim+harness", "deterministic simulation with fault injection at the file-system seam: aliasing + buffer-poisoning disk personality (every remap/unmap destroys what earlier Slice results point to), retained-slice snapshot oracle; plus real mmap/munmap with faults turned into panics",
                  "Every slice the database returns is kept and re-compared after every later call while files grow, are truncated, compacted away and closed on a disk that poisons unmapped buffers; arguments are scribbled after each call. The same oracle runs on real fs.OSMMap where a stale slice faults.",
                  "Histories sampled. Poisoning personality is stricter than the shipped mmap implementation.", "DESIGN.md 4/C14, 11")
+
+PROPS["C18"] = dict(
+    level="exploration",
+    runs=dict(quick=8000, thorough=150000), budget_s=dict(quick=170, thorough=1700),
+    rule="1 of 2 runs (golden): one of the 72 database directories written by the pinned build 5812af6 (= pinned commit + the add-only export hook; 36 seeded histories covering one long bucket chain, identical 32-bit hashes, several index splits, rollover + compaction with tiny segments, key/value length boundaries, deletes; "
+         "each as the cleanly closed directory and as a copy taken while open, half of those with a torn record appended to the newest segment; stored under /verif/golden with the contents recorded by the writer's reference map) is the initial disk of the simulation: "
+         "the current code must open it - a clean image without recovery, an unclean one with - with exactly the recorded contents (Get/Has per key, Count, full scan, structural index walk, independent log replay), then a seeded history of 0-60 calls (thorough 150) incl. Close/Open runs on top under the strict reference-map oracle, "
+         "with reader-side disk personalities, thresholds and sync modes varied. 1 of 2 runs (format): a seeded history written by the current code; after every call every database file must carry the documented 512-byte header (signature, version 2), segment names must be <5 digits>-<sequence>.psg, index files whole 512-byte buckets, "
+         "and after every mutating call the independent decoder must accept every segment record for record and replay (by sequence id) to the reference map, the index must walk under the documented bucket layout. evaluations = format checks + golden opens; distinct_nontrivial = distinct (model, segment bytes) states / (image, final model) pairs",
+    real=REAL_SEQ + ["the golden images were WRITTEN by the pinned build running on the same simulated disk (./check goldengen with VERIF_REPO pointing at a worktree of 5812af6)"], stub=STUB_SEQ,
+    assumptions=["histories on which the pinned writer itself disagrees with the reference map or with the independent log replay (its known defects F01, F11) are not in the corpus: 5 of 41 generated histories were skipped for that reason",
+                 "the independent decoder and index walker are written from docs/design.md"],
+    must_reach=dict(quick=["golden_clean_opened", "golden_unclean_opened", "golden_feature_torn_tail", "golden_feature_overflow_bucket_allocated", "golden_feature_index_split", "golden_feature_segment_removed", "format_checks", "recovery_moved_file"],
+                    thorough=["golden_clean_opened", "format_checks"]),
+)
+TEXT["C18"] = _t("harness", "deterministic simulation seeded with stored disk images: directories written by the pinned build are the initial state of the simulated disk (opened, checked, continued with seeded histories); independent decoder + header/name/layout check after every call of histories written by the current code",
+                 "Golden corpus of 72 images written by the pinned version (clean, unclean, torn tail) opened by the current code with recorded contents and continued under the reference-map oracle; every file the current code writes is checked against the documented format after every call by an independent reader.",
+                 "The golden half is replay of stored inputs plus seeded continuation; no search over the writer's histories beyond the stored corpus.", "DESIGN.md 4/C18, 5, 11")
+
+PROPS["C13"] = dict(
+    level="exploration",
+    runs=dict(quick=16000, thorough=400000), budget_s=dict(quick=170, thorough=1700), gomaxprocs=4,
+    rule="one evaluation = one seeded run of 2-4 opener tasks, each doing 1-3 (thorough 1-5) rounds of Open / 0-2 Put-Delete / Close-or-die on ONE directory of the REAL fs.OS (real stat, open, flock, link, unlink, close in a run-time temporary directory); "
+         "the seeded scheduler decides which task executes the next statement of fs.createLockFile and (*osLockFile).Unlock (the instrumenter puts a yield before every statement of both, at every nesting level) and the next API call; 'die' closes the session's descriptors without running Close (lock file stays, flock released). "
+         "Judged at every Open: two sessions open at once (neither has invoked Close/die) = violation; a failed Open must fail with the 'locked' error and must have made no mutating file-system call except on the lock file; a successful Open must have run recovery (index files moved aside, seen at the session's FileSystem wrapper) iff the previous session died, "
+         "and must read exactly the contents acknowledged by earlier sessions; after the run one more Open must succeed with those contents. distinct_nontrivial = distinct schedule digests",
+    real=REAL_SEQ + ["fs.OS incl. createLockFile / Unlock on the real kernel (flock between descriptors of one process conflicts like between processes)"],
+    stub=["sync.Mutex/RWMutex (scheduler-owned)", "crypto/rand", "process death is simulated by closing the session's descriptors"],
+    assumptions=["sessions end at API-call boundaries (a death in the middle of Close is C03's subject); the lock implementations of windows/plan9 are not built on this platform; fs.Mem's lock is exercised by the Open/Close tasks of C10",
+                 "schedules sampled by a seeded PRNG; the space is small (about 20 yield points per Open/Close pair), so the quick tier revisits most 2- and 3-task interleavings many times"],
+    must_reach=dict(quick=["open_failed_locked", "recovery_after_death", "run_with_competition_and_death", "closed_cleanly", "context_switches"], thorough=["run_with_competition_and_death"]),
+)
+TEXT["C13"] = _t("sim+harness", "deterministic simulation over real system calls: seeded scheduler interleaves the statements of lock acquisition/release (yields inserted by the instrumenter) of several openers on the real fs.OS; process death injected as a fault; holder-count, recovery-iff-died and contents oracles",
+                 "Seeded search over statement-level interleavings of concurrent Open/Close/die on one real directory; decides mutual exclusion, the 'locked' error, that a failed Open changes nothing, and that recovery runs exactly after a session that died.",
+                 "Schedules sampled. Real kernel flock semantics; death only at API boundaries.", "DESIGN.md 4/C13, 11")
